@@ -198,6 +198,7 @@ fn run(sc: &Scenario, faults: &[Fault]) -> Result<Outcome, Failure> {
     }
     w.reps[x].probe.disarm();
     w.check_replica_invariant(x, "after the repeated sync")?;
+    w.check_working_set_after_sync(x, &format!("after faults {faults:?} and the repeated sync"))?;
     run_actions(&mut w, &sc.tail, &mut rep, &mut flags)?;
     let fin = w.quiesce_and_check()?;
     check_nothing_sent_twice(&w)?;
